@@ -211,7 +211,12 @@ def run_ops(W, ops, check, emit_log, model=None, ledger=None, lru=None, faults=N
     def bump(k, n=1):
         stats[k] = stats.get(k, 0) + n
 
+    lenient = "lenient" in check   # a store damaged on purpose: only the read-only clauses are judged
+
     def bad(clause, op, detail, **feat):
+        if lenient and not (clause.startswith("read-only") or clause.startswith("ro-") and clause != "ro-putmeta-memento-not-found"):
+            stats["note:not_judged_on_damaged_store"] = stats.get("note:not_judged_on_damaged_store", 0) + 1
+            return
         f = {"backend": W.knobs["backend"]}
         f.update(feat)
         viol.append((clause, f, detail))
